@@ -160,6 +160,11 @@ def run_unit(unit) -> UnitResult:
                         tracker = Tracker(problem, SequentialEvaluator(), recorders=[flags, rec])
                         expect_extra = {f"X{k}": (lambda k: (lambda ind: f"x{k}:{ind.genotype.i}"))(k) for k in range(len(extra_cbs))}
                     header_writes = len(dev.writes)
+                    if not conformance and header_writes == 0:
+                        # the recorder did not go through the intercepted open(): observe the real file instead
+                        # (registration-boundary images only; crash enumeration needs the device)
+                        r.count("device_not_intercepted")
+                        conformance = True
                     rep = Rep()
                     boundaries = [len(dev.writes)]  # raw-write indices at which a registration completed
                     expected_rows = []
